@@ -205,7 +205,7 @@ def run(tier):
     sim_exe = os.path.join(bindir, "simprog")
     d = vlib.rundir("simhooks")
     rnd = random.Random(vlib.seed())
-    progs = ["p1", "p2", "p3", "p4", "p7"] if thorough else ["p1", "p3", "p4", "p7"]
+    progs = ["p1", "p2", "p3", "p4", "p7"] if thorough else ["p1", "p4", "p7"]
     nrepro = 40 if thorough else 6
 
     # ---- jobs that do not depend on each other run side by side -------------------------------
@@ -278,7 +278,7 @@ def run(tier):
     f_rv = pool.submit(_validate, rtrace, "replay", [])
 
     def enum_job():
-        configs, total_cfg = _enum_configs(cases, 6000 if thorough else 900, rnd)
+        configs, total_cfg = _enum_configs(cases, 6000 if thorough else 700, rnd)
         cfgfile = os.path.join(d, "configs.ndjson")
         vlib.write_ndjson(cfgfile, configs)
         etrace = os.path.join(d, "enum_trace.ndjson")
@@ -322,8 +322,14 @@ def run(tier):
     c36.evaluations += runs
     c37.traces += runs
     c37.evaluations += len(covered)
-    if len(covered) != 2 * len(configs):
-        raise vlib.ToolError("cover events evaluated %d != 2 x %d configs" % (len(covered), len(configs)))
+    unstable = [c for c in cov if c[2] == "unstable-prefix"]
+    cov = [c for c in cov if c[2] != "unstable-prefix"]
+    if len(covered) + len(unstable) != 2 * len(configs):
+        raise vlib.ToolError("cover events evaluated %d + %d unstable != 2 x %d configs" % (len(covered), len(unstable), len(configs)))
+    if unstable:       # nondeterministic implementation: C38 reports it; outcome sets are not comparable
+        for res in (c36, c37):
+            res.drift.append({"kind": "scripted prefix left different states in different runs (nondeterminism, see C38); "
+                                      "cover comparison skipped", "cover_events": len(unstable), "first_case": unstable[0][0]})
     multi = [x for x in esumm["per_config"] if x["dfs_outcomes"] >= 2]
     c37.distinct_nontrivial += len(multi)
     c36.distinct_nontrivial += len(multi)
